@@ -1,20 +1,38 @@
 ---------------------------- MODULE MCBlockValidation ----------------------------
 EXTENDS BlockValidation
-Sit(n, g, lp, vk, re) == [name |-> n, genesis |-> g, lastPow |-> lp, valKeys |-> vk, resEmpty |-> re]
-AllSits == { Sit("gen1", TRUE, <<0, 0, 0, 0>>, {1, 2, 3, 4}, TRUE),      \* genesis block, initial height 1
-             Sit("gen5", TRUE, <<0, 0, 0, 0>>, {1, 2, 3}, TRUE),         \* genesis block of a chain with initial height 5
-             Sit("second", FALSE, <<1, 2, 3, 4>>, {1, 2, 3, 4}, FALSE),  \* block 2
-             Sit("later", FALSE, <<10, 1, 1, 1>>, {1, 2, 3}, TRUE) }     \* block 8, validator 4 left the set
+Sit(n, g, lp, vk, re) == [name |-> n, genesis |-> g, lastPow |-> lp, valKeys |-> vk, resEmpty |-> re, kind |-> "full"]
+QSit(n, lp) == [name |-> n, genesis |-> FALSE, lastPow |-> lp, valKeys |-> {1, 2, 3, 4}, resEmpty |-> TRUE, kind |-> "quorum"]
+FullSits == { Sit("gen1", TRUE, <<>>, {1, 2, 3, 4}, TRUE),                \* genesis block, initial height 1
+              Sit("gen5", TRUE, <<>>, {1, 2, 3}, TRUE),                   \* genesis block of a chain with initial height 5
+              Sit("second", FALSE, <<1, 2, 3, 4>>, {1, 2, 3, 4}, FALSE),  \* block 2 (total 10 = 1 mod 3)
+              Sit("later", FALSE, <<10, 1, 1, 1>>, {1, 2, 3}, TRUE) }     \* block 8, validator 4 left the set (13 = 1 mod 3)
+\* quorum situations: total power T = 0, 1, 2 mod 3; tallies of exactly floor(2T/3), floor(2T/3)+1, T are all reachable
+QSits == { QSit("q4", <<1, 1, 1, 1>>),              \* T = 4  (1 mod 3): 2 rejected, 3 accepted
+           QSit("q5", <<1, 1, 1, 1, 1>>),           \* T = 5  (2 mod 3): 3 rejected, 4 accepted
+           QSit("q7", <<1, 1, 1, 1, 1, 1, 1>>),     \* T = 7  (1 mod 3): 4 rejected, 5 accepted
+           QSit("q113", <<1, 1, 3>>),               \* T = 5  (2 mod 3): 3 rejected, 4 accepted
+           QSit("q233", <<2, 3, 3>>),               \* T = 8  (2 mod 3): 5 rejected, 6 accepted
+           QSit("q1113", <<1, 1, 1, 3>>) }          \* T = 6  (0 mod 3): 4 rejected, 5 accepted
+AllSits == FullSits \cup QSits
 M(f, v) == [f |-> f, v |-> v]
-Names == {"gen1", "gen5", "second", "later"}
+Names == {s.name : s \in AllSits}
+\* every way of blanking / making stray a subset of the n precommits
+Subsets(n, cls) == { {M(EName(i), f[i]) : i \in {j \in 1..n : f[j] # "ok"}} : f \in [1..n -> {"ok"} \cup cls] }
 \* relabelled ValidatorIndex fields give the late precommit of the weakest validator the weight of the strongest
-Extras == [n \in Names |-> IF n = "later" THEN { {M("e1", "ix1A"), M("e4", "ixtsA"), M("time", "alt")},
-                                                 {M("e1", "ix1A"), M("e4", "ixtsA")},
-                                                 {M("e2", "nil"), M("e3", "nil"), M("e4", "nil")},
-                                                 {M("e1", "nil"), M("e2", "okB"), M("e3", "okNil")} }
-                           ELSE {}]
+Extras == [n \in Names |->
+   CASE n = "later" -> { {M("e1", "ix1A"), M("e4", "ixtsA"), M("time", "alt")},
+                         {M("e1", "ix1A"), M("e4", "ixtsA")},
+                         {M("e2", "nil"), M("e3", "nil"), M("e4", "nil")},
+                         {M("e1", "nil"), M("e2", "okB"), M("e3", "okNil")} }
+     [] n = "q4" -> Subsets(4, {"nil", "okB"})
+     [] n = "q5" -> Subsets(5, {"nil", "okB"})
+     [] n = "q7" -> Subsets(7, {"nil"}) \cup Subsets(7, {"okB"})
+     [] n = "q113" -> Subsets(3, {"nil", "okB", "okNil"})
+     [] n = "q233" -> Subsets(3, {"nil", "okB", "okNil"})
+     [] n = "q1113" -> Subsets(4, {"nil", "okB"})
+     [] OTHER -> {}]
 PairsQ == {"gen1", "second"}
-PairsT == Names
+PairsT == {"gen1", "gen5", "second", "later"}
 FieldsQ == Fields \ {"e2", "e3"}
 FieldsT == Fields
 =============================================================================
